@@ -86,8 +86,15 @@ class JsonSchemaParser:
     @classmethod
     def get_constraints(cls, schema: dict):
         constraints = {}
+        # the length keywords of the three sized types share Rule's min_length / max_length: those of another
+        # type than the declared one say nothing about its values (and must not overwrite the right one)
+        foreign = set()
+        for _type, keys in (('string', ('minLength', 'maxLength')), ('array', ('minItems', 'maxItems')),
+                            ('object', ('minProperties', 'maxProperties'))):
+            if schema.get('type') in ('string', 'array', 'object') and schema.get('type') != _type:
+                foreign.update(keys)
         for key, val in schema.items():
-            if key in constant.CONSTRAINTS_MAP:
+            if key in constant.CONSTRAINTS_MAP and key not in foreign:
                 constraints[constant.CONSTRAINTS_MAP[key]] = val
         if constraints.get('max_length') == 0 and not isinstance(constraints['max_length'], bool):
             # maxLength / maxItems / maxProperties: 0 allows the empty value only
